@@ -159,15 +159,15 @@ func BoolLit(b bool) *Term {
 	}
 	return TFalse
 }
-func IntLit(n int64) *Term      { return &Term{Sort: SInt, IsLit: true, Int: big.NewInt(n)} }
-func IntLitB(n *big.Int) *Term  { return &Term{Sort: SInt, IsLit: true, Int: new(big.Int).Set(n)} }
+func IntLit(n int64) *Term     { return &Term{Sort: SInt, IsLit: true, Int: big.NewInt(n)} }
+func IntLitB(n *big.Int) *Term { return &Term{Sort: SInt, IsLit: true, Int: new(big.Int).Set(n)} }
 func BVLitB(n *big.Int, w int) *Term {
 	m := new(big.Int).Set(n)
 	mod := new(big.Int).Lsh(big.NewInt(1), uint(w))
 	m.Mod(m, mod)
 	return &Term{Sort: SBV(w), IsLit: true, Int: m, Width: w}
 }
-func BVLit(n int64, w int) *Term { return BVLitB(big.NewInt(n), w) }
+func BVLit(n int64, w int) *Term    { return BVLitB(big.NewInt(n), w) }
 func Const(name, sort string) *Term { return &Term{Op: name, Sort: sort} }
 
 func (t *Term) isInt() bool  { return t.IsLit && t.Sort == SInt }
@@ -741,8 +741,8 @@ func SCap(s *Term) *Term  { return acc("s.cap", 3, SInt, s) }
 var NilSlice = MkSlice(IntLit(0), IntLit(0), IntLit(0), IntLit(0))
 
 func MkIface(typ, val *Term) *Term { return mk("mk-iface", SIface, typ, val) }
-func IType(s *Term) *Term        { return acc("i.type", 0, SInt, s) }
-func IVal(s *Term) *Term         { return acc("i.val", 1, SInt, s) }
+func IType(s *Term) *Term          { return acc("i.type", 0, SInt, s) }
+func IVal(s *Term) *Term           { return acc("i.val", 1, SInt, s) }
 
 var NilIface = MkIface(IntLit(0), IntLit(0))
 
